@@ -456,7 +456,7 @@ class Daemon(object):
                                 serializer.dumps(wrapped)
                             except Exception as sx:
                                 # the exception object can't be serialized, use a generic PyroError instead (like for normal calls)
-                                replacement = errors.PyroError("Error serializing exception: %s. Original exception: %s: %s" % (str(sx), type(xv), str(xv)))
+                                replacement = errors.PyroError("Error serializing exception: %s. Original exception: %s: %s" % (errors.safe_str(sx), type(xv), errors.safe_str(xv)))
                                 replacement._pyroTraceback = xv._pyroTraceback
                                 wrapped = core._ExceptionWrapper(replacement)
                             data.append(wrapped)
@@ -643,7 +643,7 @@ class Daemon(object):
         except Exception:
             # the exception object couldn't be serialized, use a generic PyroError instead
             xt, xv, tb = sys.exc_info()
-            msg = "Error serializing exception: %s. Original exception: %s: %s" % (str(xv), type(exc_value), str(exc_value))
+            msg = "Error serializing exception: %s. Original exception: %s: %s" % (errors.safe_str(xv), type(exc_value), errors.safe_str(exc_value))
             exc_value = errors.PyroError(msg)
             exc_value._pyroTraceback = tbinfo
             data = serializer.dumps(exc_value)
